@@ -120,6 +120,7 @@ Signatures are C20|input-class=<class>|oracle=<oracle>.
 | c20-transport-nodeinfo-id-not-compared         | upgrade: conn.ID vs NodeInfo.ID comparison disabled                        | FAIL (TestTransportMultiplexRejectMissmatchID)| yes, exit 1 (10) | transport:..reported-id=third.. / inconsistent-peer-accepted, wrong-remote-key; transport-reflection:..nodeinfo=own-id / authenticated-without-private-key |
 | c20-transport-self-not-rejected                | upgrade: "reject self" disabled                                            | FAIL (TestSwitchFiltersOutItself, TestTransportMultiplexRejectSelf) | yes, exit 1 (4) | transport:..key=self.. / inconsistent-peer-accepted; transport-reflection:..nodeinfo=reflected / authenticated-without-private-key |
 | c20-seeded-write-lock-narrowed (seeded C20)    | Write: sendMtx held only around Seal+incrNonce, conn.Write after Unlock     | pass (also silent under -race)                | yes, exit 1 (1), same signature and same first counterexample in 2 runs | two-writers:controlled-interleaving / read-error-on-clean-stream:decrypt (smallest: writes [[1],[1,1025]], choices [1,1,0], frames reach the wire in writer order 0111); the free-running phase also sees it (write-calls-not-atomic / decrypt) but not reproducibly: counted in irreproducible_findings_not_reported and printed as a note, never the verdict |
+| c20-seeded-g-flushstop-waits-on-quit-channel (seeded C20g) | FlushStop: `<-c.doneSendRoutine` -> `<-c.quitSendRoutine` (no longer waits for the send routine to exit) | pass (lib/p2p/conn, lib/p2p, lib/p2p/pex per the seed's meta) | yes, exit 1 (3), identical in 3 runs, ~17 s | mconn:flushstop-while-send-routine-busy / exactly-once-intact-in-order; same / corrupted-packet-stream (smallest: msgs [{ch1,66000}], script "SX", choices [0,0], writes reach the wire in order R F F); C20|oracle=data-race|at=lib/p2p/conn.(*MConnection).flush from the -race pass |
 | c20-race-write-without-send-mutex              | SecretConnection.Write: sendMtx not taken                                  | pass                                          | quick: not applicable (cooperative); RACE PASS: yes, exit 66, 10-13 data-race reports | (VERIF_RACE=1 C20_RACE_PASS=1) |
 
 Controlled two-writer interleavings (interleave.go; the premise "a whole Write call is atomic" of the merge
@@ -151,6 +152,29 @@ phase as an explored fact, deterministic and replayable):
     Scope thorough: lists of <=2 calls with <=3 preemptions in both directions; lists of <=3 calls with <=5 calls
     in total (3+3 calls over {1,3000}) with <=2 preemptions: 5 069 scenario jobs, ~49 s.
     After 300 violating executions the phase stops (each costs a new handshake; smallest schedules first).
+
+Controlled exploration of FlushStop against a busy send routine (flushstop.go; why seeded C20g was missed before:
+the sender of every MConnection case was an UNSTARTED connection driven synchronously, so there was no send
+routine and FlushStop was never called; interleave.go explores SecretConnection.Write only):
+    a real Start()ed MConnection over the checker's pipe; its send routine (found in the goroutine dump:
+    stack contains sendRoutine, created by the explorer's goroutine) and a goroutine calling FlushStop() park
+    at (1) the pipe gate at the start of every conn.Write (a flush, or the 64 KiB buffer overflowing inside a
+    batch of packets) and (2) the logger handed to the connection, at the "Flush" message every flush() starts
+    with. FlushThrottle is 1 h; "the throttle timer fires" is an operation of the checker (accessor
+    VerifC20FireFlushThrottle: a value on flushTimer.Ch), enabled only while the send routine is idle in its
+    select. Environment scripts over {S TrySend, T timer fires} with 1..3 S and <=2 T, then X = FlushStop().
+    Choices via verif/mc/explore between the next script operation and releasing a parked goroutine; default
+    = whoever moved last, preempting someone who could continue costs 1. Quiescence from goroutine states
+    (select of the send routine, FlushStop's wait for doneSendRoutine count as waiting inside the code under
+    test). Oracle: the wire decodes (reference receiver + real receiving MConnection) to exactly the messages
+    accepted before FlushStop, once, intact, per-channel order; no deadlock, no panic. One P.
+    quick: 161 scenarios (sizes {300, maxPayload+1} in all combinations, one channel / alternating two, plus a
+    66000-byte first message), <=2 preemptions: 845 executions, 2 623 choice points, 4 774 snapshots, 504
+    executions call FlushStop while the send routine is parked at a gate, 7 distinct wire orders; 0.5-0.6 s.
+    thorough: 469 scenarios (sizes {1,300,maxPayload+1}), <=5 preemptions: ~3 500 executions, 2.1 s.
+    The -race pass (checks/c20/RACEPASS, run by run.sh before every main run) additionally runs 150 (1500)
+    free-running iterations of FlushStop against a send routine stalled in a slow first write with two more
+    messages queued; unchanged tree: clean; seeded C20g: exit 66, data race in (*MConnection).flush.
 
 The race pass (the same premise under the race detector, for races that are not at these scheduling points):
     VERIF_RACE=1 VERIF_NOEVIDENCE=1 C20_RACE_PASS=1 /verif/run.sh C20 quick
